@@ -262,8 +262,17 @@ static void rt_atomic_hook(void) {
   }
 }
 #define RT_ATOMIC_POINT() rt_atomic_hook()
+/* "another thread acts while a worker is about to wait" (cooperative thread model, C11): one-shot hook armed by the harness (vf_prepark_arm). When a modelled
+   thread calls condition_variable::wait (its predicate was false, it holds the mutex, it is not yet registered as a waiter), fn() runs as the harness thread.
+   What fn does before it needs that mutex happens while the thread is not waiting yet (a notification is lost on it); when fn locks the mutex it blocks until
+   the waiter releases it by waiting - the model completes the park at that moment and lets fn go on (notifications from then on wake the thread, a join may run it). */
+rt_inject_fn *rt_prepark_f; int rt_prepark_thread; int *rt_prepark_mutex; void *rt_prepark_cv;
+void vf_prepark_arm(rt_inject_fn *fn) { rt_prepark_f = fn; }
+int vf_prepark_pending(void) { return rt_prepark_f != 0; }
+static void rt_prepark_complete(int *st);
 static int rt_mutex_lock(void *m) {
   int *st = (int*)m;
+  if (rt_prepark_thread && st == rt_prepark_mutex && *st == 1) rt_prepark_complete(st);
   rt_lock_hook();
   __CPROVER_assert(!rt_parking, "rt: model limitation: a parked thread kept running (wait reached through an indirect call)");
   __CPROVER_assert(*st == 0, "rt: std::mutex locked twice by the only thread (self-deadlock)");
@@ -424,9 +433,24 @@ static void rt_cond_wait(void *cv, void *ulock) {
     __CPROVER_assert(0, "rt: condition_variable::wait in the main thread with its predicate false (blocks forever in this model)");
     __CPROVER_assume(0);
   }
+  if (rt_prepark_f != 0 && !rt_in_hook) {
+    rt_inject_fn *f = rt_prepark_f; int me = rt_cur;
+    rt_prepark_f = 0; rt_prepark_thread = me; rt_prepark_mutex = st; rt_prepark_cv = cv;
+    rt_cur = 0; rt_in_hook = 1;
+    f();
+    rt_in_hook = 0; rt_cur = me;
+    if (rt_prepark_thread == 0) { rt_parking = 1; return; }     /* fn blocked on the mutex: the park was completed there (the thread may even have run to its end since) */
+    rt_prepark_thread = 0;
+  }
   *st = 0;
   rt_t_state[rt_cur] = RT_T_PARKED; rt_t_cond[rt_cur] = cv;
   rt_parking = 1;
+}
+static void rt_prepark_complete(int *st) {
+  int t = rt_prepark_thread;
+  rt_prepark_thread = 0;
+  *st = 0;
+  rt_t_state[t] = RT_T_PARKED; rt_t_cond[t] = rt_prepark_cv;
 }
 static void rt_cond_notify_all(void *cv) {
   int i;
